@@ -702,3 +702,4 @@ def directions(chk, repo):
 # added rules (appended to the explanation the evidence file carries)
 EXPLANATION += (" " + "Added during the build (DESIGN.md 4.31, second table): (R16.7) in mbx_send every path from 'mail pending' to the mailbox write passes mbx_recv().")
 EXPLANATION += (' Added after wave 9: (R16.5) mbx_recv has no explicit give-up before the mailbox is read; the lock-file model of C15 is shared.')
+EXPLANATION += (' Added after wave 10: (R16.4) datasize() gives the exact number of bytes for 88 cases.')
